@@ -133,3 +133,7 @@ package coverage
 //@     invariant forall g uint16 :: old(has(table, g)) && old(table[g]) < size ==> has(table, g)
 //@     invariant forall k int :: iter <= k && k < len(gg) ==> oldhas(table, gg[k]) && oldat(table, gg[k]) >= size
 //@     invariant forall g uint16 :: old(has(table, g)) && old(table[g]) >= size && has(table, g) ==> exists k int :: iter <= k && k < len(gg) && gg[k] == g
+
+//@ func (table Table) Contains(gid glyph.ID) (ok bool)   props: C06 C07 C16
+//@   ensures ok == has(table, gid)
+//@   modifies nothing
